@@ -206,7 +206,10 @@ def run(rep):
     rep.rule("H2b dense pre-fill (detail::filler), which H2 shows to run on the accumulate path as well: creates bins, never overwrites or erases one")
     rep.rule("H3 cumulative_histogram: 1-D running sum over the sorted keys; n-D sum over all keys component-wise <= the key")
     rep.rule("H4 sub_histogram<Dims...>(): every bin is added into the bin of its projected key")
+    rep.rule("H4b sub_histogram<Dims...>(low, high): the range test is component-wise (detail::tuple_compare), not std::tuple's lexicographic <= (which differs from it as soon as two axes are selected)")
     rep.rule("H5 normalize: every bin divided by the sum of all bins; sum(): sum of all bins")
+    rep.rule("H8 histogram::fill on signed channels: the channel is not converted to an unsigned type before it is divided by bin_width")
+    rep.rule("H9 histogram::fill: the pixel that is divided by bin_width is a value copy (the view's value_type), not a reference proxy (planar views): the source image is not modified")
     rep.rule("H6 std-container fill_histogram: container reset iff !accumulate; vector sized numeric_limits<gray channel>::max()+1 before the loop, array index scaled by (size-1)/max; exactly one unconditional ++bin[gray value] per pixel of the whole view")
     rep.rule("H7 std-container cumulative_histogram: counter from 0, one loop over every index (map: every key in order), add then store, result returned")
     rep.rule("all rules compare canonical forms (R.canonize): parameters by position, locals by role, named intermediate values inlined")
@@ -247,7 +250,8 @@ def run(rep):
                 if len(incs) != 1 or env is None:
                     prob.append("bin updates %s, expected one increment of bin[key_from_pixel(scaled pixel)]" % [k for k, _, _ in incs])
                 else:
-                    if decl.get(env["P"]) != "$0.row_begin(%s)[%s]" % (yv, xv):
+                    # (a conversion of the reference to the view's value_type may wrap it: pixel{ref, nullptr})
+                    if not re.fullmatch(r"(?:\w+\{)?%s(?:,nullptr\})?" % re.escape("$0.row_begin(%s)[%s]" % (yv, xv)), decl.get(env["P"]) or ""):
                         prob.append("the counted pixel is %s, expected $0.row_begin(y)[x]" % decl.get(env["P"]))
                     KEY = re.escape(keyexpr)
                     ren = lambda a: "applymask" if a == "$2" else "m" if a == "$3[%s][%s]" % (yv, xv) else "setlimits" if a == "$6" else \
@@ -282,6 +286,41 @@ def run(rep):
                 rep.incon("H1-fill", key, {"unrecognised": unknown})
             else:
                 rep.ok("H1-fill", key, "loop nest, mask, scaling, key, limits, single increment")
+            # ------------------------------------------------------------ H8: the division keeps the sign of the channel
+            m = re.search(r"(?:pixel<|planar_pixel_iterator<)((?:un)?signed char|char|(?:unsigned )?short|(?:unsigned )?int|(?:unsigned )?long|float|double)\b", f["full"])
+            chan = m.group(1) if m else None
+            view_kind = "planar" if "planar_pixel_iterator" in f["full"] else "interleaved"
+            if chan is not None:
+                rep.count("obligations:H8")
+                k8 = "H8:histogram::fill:scaling of %s channels" % chan
+                signed = chan in ("signed char", "char", "short", "int", "long")
+                convs = []
+                for x, pth in R.find(f["body"], lambda x: x.get("k") == "Binary" and x.get("op") in ("/", "%")):
+                    if not any(a.get("k") == "Lambda" for a, _, _ in pth):
+                        continue
+                    for side in ("l", "r"):
+                        n = x[side]
+                        while isinstance(n, dict) and n.get("k") in ("ImplicitCast", "ExplicitCast", "Paren"):
+                            if n.get("k") == "ImplicitCast" and n.get("cast") == "IntegralCast" and n.get("to_c", "").startswith("unsigned") and \
+                                    re.fullmatch(r"(const )?(signed char|char|short|int|long|long long)", n.get("from_c", "")):
+                                inner = R.strip(n["e"])
+                                if inner.get("k") == "DeclRef" and any(inner.get("id") == q.get("id") for a, _, _ in pth if a.get("k") == "Lambda" for q in a.get("params") or []):
+                                    convs.append("%s converted to %s before %s" % (inner["name"], n.get("type"), x["op"]))
+                            n = n.get("e")
+                if convs:
+                    rep.violation("H8-signed-scaling", k8, where, {"conversions": convs, "example": "channel -4, bin width 3: -4 becomes 2^64-4 before the division, the key is 84 instead of -1"})
+                else:
+                    rep.ok("H8-signed-scaling", k8, {"signed": signed, "implicit unsigned conversions of the channel": convs})
+            # ------------------------------------------------------------ H9: the scaled pixel is a copy, not a reference proxy into the image
+            if not prob and not unknown and env is not None:
+                rep.count("obligations:H9")
+                k9 = "H9:histogram::fill:scaled pixel of a %s view" % view_kind
+                ty = [dd.get("type") or "" for x, _ in R.find(g["body"], lambda x: x.get("k") == "Decl") for dd in x["decls"] if dd.get("name") == env["P"]]
+                proxy = bool(ty) and (re.search(r"(planar_pixel_reference|bit_aligned_pixel_reference|packed_channel_reference)<", ty[0]) is not None or ty[0].rstrip().endswith("&"))
+                if proxy:
+                    rep.violation("H9-scaled-copy", k9, where, {"type of the scaled pixel": ty[0][:120], "problem": "the division by bin_width is written through the reference into the source image"})
+                else:
+                    rep.ok("H9-scaled-copy", k9, ty[0][:80] if ty else None)
         # ---------------------------------------------------------------- H1b
         if nm == "boost::gil::detail::tuple_compare" and len(f["params"]) == 3:
             rep.count("obligations:H1b")
@@ -340,6 +379,22 @@ def run(rep):
                     sites += 1
                     if not any(op == "==" and l == acc and r == "0" for op, l, r in R.guards(pth)):
                         exposed += 1
+            # H8 for the pre-fill: its keys may be negative (signed key types), they are not converted to unsigned before the division
+            rep.count("obligations:H8")
+            convs = []
+            for x, pth in R.find(f["body"], lambda x: x.get("k") == "Binary" and x.get("op") in ("/", "%")):
+                n = x["l"]
+                while isinstance(n, dict) and n.get("k") in ("ImplicitCast", "ExplicitCast", "Paren"):
+                    inner = R.strip(n.get("e"))
+                    if n.get("k") == "ImplicitCast" and n.get("cast") == "IntegralCast" and n.get("to_c", "").startswith("unsigned") and isinstance(inner, dict) and \
+                            re.fullmatch(r"(const )?(signed char|char|short|int|long|long long)", n.get("from_c", "")) and inner.get("k") not in ("Int",):
+                        convs.append("%s (%s) converted to %s before %s" % (R.key(inner), n.get("from_c"), n.get("to_c"), x["op"]))
+                    n = n.get("e")
+            k8 = "H8:detail::filler<%s>::operator():keys of the dense pre-fill" % ("1" if re.search(r"filler<1", f.get("cls", "") + f["full"]) else "N")
+            if convs:
+                rep.violation("H8-signed-scaling", k8, where, {"conversions": convs, "example": "lower limit -30, bin width 3: the first bin created is (2^64-30)/3 truncated to the key type, not -10"})
+            else:
+                rep.ok("H8-signed-scaling", k8, "no signed key is converted to an unsigned type before the division")
             if badw and exposed:
                 rep.violation("H2b-prefill-keeps", k, where, {"overwrites": badw, "reached_with": "fill_histogram(..., accumulate = true, ...): %d of %d call(s) of the pre-fill are not guarded by !accumulate" % (exposed, sites)})
             else:
@@ -391,6 +446,27 @@ def run(rep):
                 rep.ok("H4-marginal", "H4:sub_histogram<Dims...>()", keys)
             else:
                 rep.violation("H4-marginal", "H4:sub_histogram<Dims...>()", where, {"statements": keys, "loops": fe, "returns": ret})
+        # ---------------------------------------------------------------- H4b key range
+        if nm == "boost::gil::histogram::sub_histogram" and len(f["params"]) == 2:
+            dims = re.search(r"sub_histogram<((?:\d+UL, )+)", f["full"])
+            ndim = len(re.findall(r"\d+UL", dims.group(1))) if dims else 0
+            rep.count("obligations:H4b")
+            k4 = "H4b:sub_histogram<%d axes>(low, high)" % ndim
+            ifs = [x for x, _ in R.find(g["body"], lambda x: x.get("k") == "If")]
+            keys = [k for k, _, _ in effects(g["body"])]
+            if len(ifs) != 1:
+                rep.incon("H4b-range", k4, {"unrecognised": "%d conditionals" % len(ifs)})
+            else:
+                cmps = [(c["callee"]["name"], [R.key(a) for a in c["args"][:2]]) for c, _ in R.calls_in(ifs[0]["cond"], lambda n: n in ("std::operator<=", "std::operator<", "std::operator>=", "std::operator>") or n.endswith("tuple_compare"))]
+                lex = [c for c in cmps if c[0].startswith("std::operator")]
+                comp = [c for c in cmps if c[0].endswith("tuple_compare")]
+                if lex and ndim >= 2:
+                    rep.violation("H4b-range", k4, where, {"comparisons": cmps, "problem": "std::tuple's relational operators compare lexicographically: with two or more selected axes a key whose first component is strictly inside the range passes whatever its other components are",
+                                                             "example": "bin (2,9,1), range [1,3]x[1,3] on axes 0,1 is kept although 9 is not in [1,3]"})
+                elif (len(comp) == 2 and not lex) or (lex and ndim == 1 and len(lex) == 2):
+                    rep.ok("H4b-range", k4, cmps)
+                else:
+                    rep.incon("H4b-range", k4, {"unrecognised": cmps})
         # ---------------------------------------------------------------- H5
         if nm in ("boost::gil::histogram::normalize", "boost::gil::histogram::sum"):
             rep.count("obligations:H5")
@@ -415,6 +491,9 @@ def run(rep):
     rep.floor("obligations:H2b", 2)
     rep.floor("obligations:H3", 2)
     rep.floor("obligations:H4", 1)
+    rep.floor("obligations:H4b", 2)
     rep.floor("obligations:H5", 3)
+    rep.floor("obligations:H8", 5)
+    rep.floor("obligations:H9", 3)
     rep.floor("obligations:H6", 6)
     rep.floor("obligations:H7", 6)
